@@ -224,6 +224,17 @@ func (x *Exec) run(res *FuncResult) {
 	x.heapTypingAll(st)
 	x.assumeWF(st)
 	x.wrapCfail("channel subjects of "+c.Key, func() { x.bindCarriedSubjects(st, names) })
+	if fi.Lit != nil && (len(c.Defines) > 0 || c.Implements != "") {
+		// the closure under verification as a value
+		self := &Val{T: x.fresh("self", SRef), Ty: fr.info.TypeOf(fi.Lit)}
+		x.assume(st, Neq(self.T, Null))
+		names["self"] = self
+		x.wrapCfail("defines of "+c.Key, func() {
+			for _, d := range c.Defines {
+				x.assume(st, env.HypFormula(d.Expr))
+			}
+		})
+	}
 	x.wrapCfail("precondition of "+c.Key, func() {
 		for _, r := range c.Requires {
 			x.assume(st, env.HypFormula(r.Expr))
